@@ -449,6 +449,28 @@ def c20(prop, tier):
     return rc
 
 
+@check("C12")
+def c12(prop, tier):
+    q = tier == "quick"
+    models = [
+        ("Proxy", "Proxy.tla", "Proxy.cfg", "the proxy read-through path step by step (lookup, reserve, backend call, size checks, file creation, copy, validation, commit, cleanup) for every script of <= 3 requests over 8 backend behaviours x kind x storage mode x size known/unknown x max_proxy_blob_size relation: result within the allowed set, hits complete, nothing reserved / no file / no reader left, nothing oversize cached, cached entries served locally; liveness: every request ends", "px"),
+    ]
+    drivers = [
+        ("iface", ["proxy", "-backend", "iface", "-cases", "{px}", "-stride", "11" if q else "1", "-seed", "{seed}"]),
+        ("http", ["proxy", "-backend", "http", "-cases", "{px}", "-stride", "23" if q else "3", "-seed", "{seed}"]),
+        ("grpc", ["proxy", "-backend", "grpc", "-cases", "{px}", "-stride", "23" if q else "3", "-seed", "{seed}"]),
+        ("s3", ["proxy", "-backend", "s3", "-cases", "{px}", "-stride", "31" if q else "3", "-seed", "{seed}"]),
+        ("writes", ["proxy", "-part", "writes", "-seed", "{seed}"]),
+    ]
+    return multi_check(prop, tier, models, drivers,
+                       ["faults are injected at two levels: at the cache.Proxy interface (an in-memory backend returning every (reader, size, error) combination) and at the transport below the real httpproxy / s3proxy (minio client) / grpcproxy clients: HTTP status, dropped connection, body cut at a byte with and without announced length, missing length, gRPC status before the stream and after k bytes, clean end after k bytes, altered FetchBlob answers; a fault a transport cannot express is skipped for that backend",
+                        "the backend is trusted for content it completely and consistently delivers (no bit flips, no consistent substitution of another object), as the property says",
+                        "not-found may surface as miss or error (the property's wording); with a gRPC backend the peer's NotFound status does surface as an error",
+                        "fault positions are drawn per request from {0, 1, inside the header, half, last byte, random}; the azure client cannot be redirected to a local server and is not exercised",
+                        "each request runs in its own cancellable context, as a server handler does"],
+                       "tlc Proxy.tla + vh proxy (iface / http / grpc / s3 / writes)")
+
+
 @check("C09")
 def c09(prop, tier):
     models = [
